@@ -277,10 +277,10 @@ def execute(scenario, seed, overrides=None):
         def on_rx(t, rsock, data, addr, tx_idx, copy):
             if rsock.owner.name != "R":
                 return
-            if len(data) > wire.MAX_ABS or not guards.check(rsock.label, data, t * 1000.0):
+            if len(data) > wire.MAX_ABS or not guards.check(rsock.label, data, t * 1000.0, addr):
                 return
             msg = wire.try_decode(data)
-            guards.accept(rsock.label, data, t * 1000.0, bool(msg and any(q.qu for q in msg.questions)))
+            guards.accept(rsock.label, data, t * 1000.0, bool(msg and any(q.qu for q in msg.questions)), addr)
             if msg is None or msg.is_response or addr[1] != 5354:
                 return
             apply_api()
